@@ -3634,8 +3634,12 @@ class GraphicObject:
                 del kwargs["relative_length"]
             except KeyError:
                 pass
+            if isinstance(width, (int, float)) and isinstance(height, (int, float)):
+                diagonal = sqrt((width * width + height * height) / 2.0)
+            else:
+                diagonal = None  # No resolved viewport size: a percentage stroke_width stays a percentage.
             self.stroke_width = self.stroke_width.value(
-                relative_length=sqrt((width * width + height * height) / 2.0), **kwargs
+                relative_length=diagonal, **kwargs
             )
             # A percentage stroke_width is always computed as a percentage of the normalized viewBox diagonal length.
 
